@@ -37,6 +37,7 @@ var (
 	errMoreDataInArgument       = errors.New("closed argument reader when there is more data available to read")
 	errExpectedMoreArguments    = errors.New("closed argument reader when there may be more data available to read")
 	errNoMoreFragments          = errors.New("no more fragments")
+	errNoChunksInFragment       = errors.New("fragment has no chunks")
 )
 
 type readableFragment struct {
@@ -307,6 +308,12 @@ func (r *fragmentingReader) recvAndParseNextFragment(initial bool) error {
 	localChecksum := r.checksum.Sum()
 	if bytes.Compare(r.curFragment.checksum, localChecksum) != 0 {
 		r.err = errMismatchedChecksums
+		return r.err
+	}
+
+	// A fragment carries at least one chunk
+	if len(r.remainingChunks) == 0 {
+		r.err = errNoChunksInFragment
 		return r.err
 	}
 
